@@ -30,8 +30,10 @@ def replay_e1(case):
     extra = {"known": core.load_known_findings(pid)}
     jf = e1run.JUDGES.get(judge)
     if jf is None:
-        mod = importlib.import_module(case["module"])
-        jf = getattr(mod, case["judge_func"])
+        from . import lockstep
+
+        jf = lockstep.make_judge(pid)
+        extra.update(case.get("extra") or {})
     jf(t, ex, witness, extra)
     print("replayed: kind=%s witness=%s op=%s raise_at=%s persistent=%s" % (kind, list(witness), list(op), case.get("raise_at"), case.get("persistent")))
     print("observed: outcome=%s state=%s" % (ex.outcome, forest.fmt_state(ex.post, ex.labels)))
@@ -43,7 +45,7 @@ def main(path):
         case = json.load(f)
     assertions = int(case.get("assertions", 0))
     core.load_anytree(assertions)
-    if case.get("engine") == "E1":
+    if case.get("engine") == "E1" and not case.get("module"):
         why = replay_e1(case)
     else:
         mod = importlib.import_module(case["module"])
